@@ -137,9 +137,22 @@ def prep_stale_linker(root):
     write(os.path.join(root, "garblecache", "tool", "link.version"), "go1.26.0 stale\n")
 
 total_ops = total_runs = total_kills = 0; hits = set(); allb = set()
-SC = [("A-entries-cold", prep_no_garble_entries, False, sel_quick_A if tier == "quick" else sel_all_but_mkdirs),
-      ("B-linker-cold-rename", prep_no_garblecache, False, (lambda ops: sel_tool(ops, 40)) if tier == "quick" else (lambda ops: sel_tool(ops, 5))),
-      ("C-linker-stale-copy", prep_stale_linker, True, (lambda ops: sel_tool(ops, 60)) if tier == "quick" else (lambda ops: sel_tool(ops, 5)))]
+def prep_none(root): pass
+def prep_no_tool(root):
+    shutil.rmtree(os.path.join(root, "garblecache", "tool"), ignore_errors=True)
+def prep_stale_stamp(root):
+    write(os.path.join(root, "garblecache", "tool", "link.version"), "go1.26.0 stale\n")
+if tier == "quick":
+    # quick: the standard library's entries stay in both caches, so the builds are short; every boundary of the user
+    # packages' entries and of the output, and every boundary inside GARBLE_CACHE/tool for both install modes
+    SC = [("A-user-packages-cold", prep_none, False, sel_all_but_mkdirs),
+          ("B-linker-absent-rename", prep_no_tool, False, lambda ops: sel_tool(ops, 10**9)),
+          ("C-linker-stale-copy", prep_stale_stamp, True, lambda ops: sel_tool(ops, 10**9))]
+else:
+    SC = [("A-user-packages-cold", prep_none, False, sel_all_but_mkdirs),
+          ("A2-entries-cold", prep_no_garble_entries, False, sel_all_but_mkdirs),
+          ("B-linker-cold-rename", prep_no_garblecache, False, lambda ops: sel_tool(ops, 5)),
+          ("C-linker-stale-copy", prep_stale_linker, True, lambda ops: sel_tool(ops, 5))]
 for name, prep, shm, sel in SC:
     o, r, k, h, a = scenario(name, prep, shm, sel)
     total_ops += o; total_runs += r; total_kills += k; hits |= h; allb |= a
@@ -148,8 +161,8 @@ R.finish({
     "evaluations": total_runs,
     "distinct_nontrivial": len(hits),
     "rule": "real `garble build -p 1` of a 2-package module under a ptrace supervisor that numbers every file-system mutation (open for write/create, write, rename, unlink, mkdir, truncate, chmod, utimens...) "
-            "touching GOCACHE, GARBLE_CACHE or the output, and in kill mode SIGKILLs the whole process tree just before mutation K; start states: A GARBLE_CACHE/build empty, B GARBLE_CACHE absent (linker built, rename install), "
-            "C stale linker stamp with TMPDIR on another file system (in-place copy install); after each kill the same command is run again on the surviving caches; oracle: exit 0 and binary = uninterrupted reference; "
+            "touching GOCACHE, GARBLE_CACHE or the output, and in kill mode SIGKILLs the whole process tree just before mutation K; start states: " + ", ".join(n for n, _, _, _ in SC) + " "
+            "(A: user packages cold; A2: all of GARBLE_CACHE/build empty; B: patched linker absent, rename install; C: stale linker stamp with TMPDIR on another file system = in-place copy install); after each kill the same command is run again on the surviving caches; oracle: exit 0 and binary = uninterrupted reference; "
             "distinct_nontrivial = distinct (syscall, normalised path) boundaries actually killed at",
     "samples": [list(h) for h in sorted(hits)[:6]],
     "mutations_in_uninterrupted_builds": total_ops, "kill_runs": total_runs, "kills_effective": total_kills,
